@@ -48,14 +48,18 @@ pub struct State {
     pub model: Model,
     pub obs: Vec<SlotObs>,
     pub key: u128,
+    /// hash of the derived Debug rendering of the arena alone
+    pub dbg: u128,
 }
 
 impl State {
     pub fn initial(arena: Arena<Payload>) -> State {
         let obs = obs::observe(&arena);
         assert!(obs.is_empty(), "initial arenas are empty");
-        let key = obs::state_key(&arena, &obs, obs::hash64(&Vec::<u64>::new()), 0);
+        let dbg = obs::debug_hash(&arena);
+        let key = obs::state_key(dbg, &obs, obs::hash64(&Vec::<u64>::new()), 0);
         State {
+            dbg,
             arena,
             cur: Vec::new(),
             issued: Vec::new(),
@@ -72,8 +76,9 @@ impl State {
     }
 
     pub fn rekey(&mut self) {
+        self.dbg = obs::debug_hash(&self.arena);
         self.key = obs::state_key(
-            &self.arena,
+            self.dbg,
             &self.obs,
             State::issued_digest(&self.issued),
             self.allocs,
